@@ -58,7 +58,8 @@ else:
     d1, o1 = sh("/venv/bin/python demo_seed.py", cwd=wt, timeout=900, env=env)
     open(out + "/demo_patched.log", "w").write(o1[-4000:])
     os.remove(wt + "/demo_seed.py")
-    rc, so = sh("/venv/bin/python -m pytest -q -p no:cacheprovider --timeout=900 2>&1 | tail -80", cwd=wt, timeout=2400)
+    rc, so = sh("/venv/bin/python -m pytest -q -p no:cacheprovider --timeout=900 > %s/suite.log 2>&1; "
+                "grep -E '[0-9]+ (passed|failed)' %s/suite.log | tail -3" % (out, out), cwd=wt, timeout=2400)
     m = re.search(r"(\d+) passed", so)
     f = re.search(r"(\d+) failed", so)
     summ = [l for l in so.splitlines() if re.search(r"\d+ (passed|failed)", l)]
